@@ -205,7 +205,7 @@ def run(chk, replay=None):
                     sysd = M.chain_system(rng)
                     text = M.to_cellml(sysd, rng)
                 else:
-                    text = M.to_cellml(sysd, rng, nla=rng.random() < 0.3, implicit=rng.choice([0.0, 0.0, 0.5]))
+                    text = M.to_cellml(sysd, rng, nla=rng.random() < 0.3, implicit=rng.choice([0.0, 0.0, 0.5]), nla_ext=0.5)
                 cases.append((sysd, text, 'base', []))
                 r = rng.random()
                 if r < 0.15 and '<apply><eq/>' in text:
@@ -214,6 +214,21 @@ def run(chk, replay=None):
                     k = rng.randrange(1, 1 + text.count('interface="public"/>'))
                     parts = text.split('interface="public"/>')
                     cases.append((None, 'interface="public"/>'.join(parts[:k]) + 'interface="public" initial_value="1"/>' + 'interface="public"/>'.join(parts[k:]), 'extra-initial-value', []))
+                # two faults at once: a state that is never initialised and a variable computed twice — unsuitably constrained
+                if sysd.get('ode') and not sysd.get('nla_block') and rng.random() < 0.7:
+                    sts = [q for q in sysd['qs'] if q.kind == 'state' and q.init is not None and q.init_from is None]
+                    # (the variable computed twice is one whose equation reads nothing: an extra equation that reads the state, an
+                    # initialised constant or anything downstream of them is legitimately used to determine *that* instead)
+                    dup = [q for q in sysd['qs'] if q.kind in ('alg', 'cconst') and q.idx in sysd['eqtext'] and q.idx not in (sysd.get('implicit') or ()) and not M.leaves(q.rhs, set())]
+                    if sts and dup:
+                        st, dq = rng.choice(sts), rng.choice(dup)
+                        c_ = sysd.get('init_at', {}).get(st.idx, st.home)
+                        decl = '<variable name="%s" units="%s" interface="public" initial_value="%s"/>' % (st.members[c_][0], st.members[c_][1], st.init)
+                        extra = '<apply><eq/><ci>%s</ci><cn cellml:units="dimensionless">1</cn></apply>' % dq.members[dq.home][0]
+                        if text.count(decl) == 1 and text.count(sysd['eqtext'][dq.idx]) == 1:
+                            t2 = text.replace(decl, decl.replace(' initial_value="%s"' % st.init, ''))
+                            t2 = t2.replace(sysd['eqtext'][dq.idx], (sysd['eqtext'][dq.idx] + extra) if rng.random() < 0.5 else (extra + sysd['eqtext'][dq.idx]))
+                            cases.append((None, t2, 'two-faults', []))
                 # external marks: a random quantity; the unknown of a removed equation (no NLA block: the pruning of NLA unknowns is not modelled)
                 if not sysd.get('nla_block') and not sysd.get('implicit') and rng.random() < 0.8:
                     cand = [q for q in sysd['qs'] if q.kind != 'voi']
@@ -247,6 +262,8 @@ def run(chk, replay=None):
                 oracle.append(('the analyser crashed', [text])); continue
             stats['systems' if tag == 'base' else 'variants'] += 1
             stats['types'][real['type']] = stats['types'].get(real['type'], 0) + 1
+            if tag == 'two-faults' and real['type'] != 'unsuitably_constrained':
+                oracle.append(('a state is never initialised and a variable is computed twice, but the model is analysed as %s instead of unsuitably constrained' % real['type'], [text]))
             if tag == 'rescued' and real['type'] not in VALID:
                 oracle.append(('the only unknown %s.%s is marked as external but the model is analysed as %s' % (ext[0], ext[1], real['type']), [text], ext))
             a = A.parse(text, ext)
@@ -279,7 +296,8 @@ def run(chk, replay=None):
                     # hang off an NLA unknown and are algebraic, however long the chain
                     if sysd.get('nla_block') and not ext:
                         byname = {nm: t for (c, nm), (t, i) in real['vars'].items()}
-                        for nm, want in (('nx', 'algebraic'), ('ny', 'algebraic'), ('nz', 'algebraic'), ('nw', 'algebraic'), ('nu', 'algebraic')):
+                        # … and when na is computed by `na = 3` in another component (reached through a connection) it is a computed constant
+                        for nm, want in (('nx', 'algebraic'), ('ny', 'algebraic'), ('nz', 'algebraic'), ('nw', 'algebraic'), ('nu', 'algebraic')) + ((('na', 'computed_constant'),) if sysd.get('nla_ext') else ()):
                             if nm in byname:
                                 stats['ground_truth_classes'] += 1
                                 if byname[nm] != want:
@@ -318,6 +336,10 @@ def run(chk, replay=None):
                                 rn[(c, nm)] = names.pop()
                         for c in range(sysd['ncomp']):
                             rn['c%d' % c] = names.pop()
+                        if sysd.get('nla_block'):
+                            for nm in ('nx', 'ny', 'na', 'nz', 'nw', 'nu'):
+                                rn[('cnla', nm)] = names.pop()
+                            rn[('cnb', 'na')] = names.pop()
                     pt = M.to_cellml(sysd, rng, perm=rng, rename=rn)
                     open(fn, 'w').write(pt)
                     r2 = analyse_real(hx, fn)
@@ -325,6 +347,8 @@ def run(chk, replay=None):
                     if r2 is None:
                         oracle.append(('the analyser crashed on a permuted model', [text, pt])); continue
                     inv = {(rn['c%d' % c], rn[(c, nm)]): ('c%d' % c, nm) for q in sysd['qs'] for c, (nm, u) in q.members.items()} if rn else None
+                    if rn:
+                        inv.update({(k[0], v): k for k, v in rn.items() if isinstance(k, tuple) and k[0] in ('cnla', 'cnb')})
                     if r2['type'] != real['type']:
                         oracle.append(('the model type changes from %s to %s when the model is %s' % (real['type'], r2['type'], 'renamed and reordered' if rn else 'reordered'), [text, pt]))
                     elif real['type'] in VALID:
